@@ -1520,6 +1520,7 @@ fn main() {
                 break;
             }
             let base = format!("{}/t{}", root, t);
+            fbrh::util::crumb(&lines[i]);
             let r = std::panic::catch_unwind(|| exec(&lines[i], &base)).unwrap_or_else(|_| CaseOut {
                 line: "panic".into(),
                 oracle: vec![serde_json::json!({"prop": "C10", "key": "C10:panic", "case": lines[i], "what": "the overlay (or the harness) panicked"})],
